@@ -50,7 +50,7 @@ REQUIRED_BUCKETS = ['op:finalize', 'op:bind', 'op:parse', 'op:macro', 'op:regist
                     'op:unlock-decorator', 'state:unlock-decorator-while-locked', 'unlock:cm-created-unlocked-entered-locked',
                     'unlock:cm-created-locked-entered-unlocked',
                     # hook keys
-                    'reject:hook-conflict-tuple-key', 'reject:hook-conflict-partial-module', 'hooks:updated-bound-parameter']
+                    'reject:hook-conflict-tuple-key', 'reject:hook-conflict-partial-module', 'hooks:updated-bound-parameter', 'hooks:update-to-equal-value-of-another-type']
 ORACLE_COUNTERS = ['oracle_evals', 'ops_compared']
 
 _S = {'plan': [None, None], 'seen': []}
@@ -154,7 +154,7 @@ POISONS = {
     'unknown-reference-unevaluated': ("f.c = @c12_nosuch", True, None),
 }
 HOOKPLANS = ['none', 'new', 'conflict', 'conflict-spelling', 'conflict-same-value', 'invalid-key', 'raise', 'two-distinct',
-             'conflict-tuple', 'conflict-partial', 'update-bound', 'update-bound']
+             'conflict-tuple', 'conflict-partial', 'update-bound', 'update-bound', 'update-bound-equal', 'update-bound-equal']
 
 
 def gen_ops(rng, depth=0, n=None):
@@ -304,7 +304,16 @@ def run_ops(ctx, m, ops, depth, shape):
       ctx.bucket('state:mutation-under-lock')
     if kind == 'finalize':
       ctx.bucket('op:finalize')
-      h0, h1, rej, applied = plan_bindings(m.plan)
+      if m.plan == 'update-bound-equal':
+        # a hook that restates every int-valued parameter of the history as the float that compares equal to it (1 -> 1.0): the
+        # update is one all the same, finalize applies what hooks return
+        h0 = {(sc, 'sub.f', prm): float(v[1]) for (sc, sel), d in m.store.items() if sel == SEL
+              for prm, v in d.items() if v[0] == 'int'}
+        h1, rej, applied = None, None, {(sc, prm): v for (sc, _, prm), v in h0.items()}
+        if applied:
+          ctx.bucket('hooks:update-to-equal-value-of-another-type')
+      else:
+        h0, h1, rej, applied = plan_bindings(m.plan)
       _S['plan'] = [h0, h1]
       del _S['seen'][:]
       if m.locked:
